@@ -323,6 +323,7 @@ class NPStr:
 
     def __init__(self, s):
         self.s = str(s.value if isinstance(s, EnumMember) else s)
+        self.member = s if isinstance(s, EnumMember) else None     # where the string came from (for conditional elements)
 
     def __eq__(self, o):
         if isinstance(o, NPStr):
